@@ -9,4 +9,7 @@ cd "$REPO" || exit 0
 dirs=$(find . -name zz_verif_contracts.go -not -path './.git/*' | xargs -r -n1 dirname | sort -u)
 [ -z "$dirs" ] && exit 0
 go build -tags verif $dirs >/dev/null 2>&1 || true
+# test binaries of the packages that carry a bounded stand-in (compiled only, nothing is run)
+bdirs=$(grep -h '^//verif:package ' "$VERIF"/bounded/*_test.go 2>/dev/null | awk '{print "./"$2}' | sort -u)
+[ -n "$bdirs" ] && go test -vet=off -count=1 -run '^$' $bdirs >/dev/null 2>&1 || true
 exit 0
